@@ -4,37 +4,51 @@
  *       it through __CPROVER_obeys_contract on jwt_ops->...;
  *   (b) the real entries of jwt_openssl_ops and jwt_gnutls_ops are each
  *       proved to satisfy it (properties C01, C05, C12).
- * Ghost record g_op_* : which key / algorithm / data range the provider was
- * asked to judge -- lets callers' postconditions say WHAT was authenticated.
+ *
+ * Ghost record of the cryptographic PRIMITIVES (g_mac_*, g_ver_*, g_sgn_*):
+ * written by the models of HMAC / gnutls_hmac_fast / EVP_DigestVerify /
+ * gnutls_pubkey_verify_data2 / EVP_DigestSign / gnutls_privkey_sign_data
+ * (stubs/openssl.c, stubs/gnutls.c) when the real provider routines are
+ * verified, and by these contracts when callers are verified.  They say WHICH
+ * key, algorithm, data range and signature bytes the primitive judged, so the
+ * postconditions further up can state what was authenticated (C01).
+ * That a primitive's "valid" means cryptographically valid is assumed.
  */
 #ifndef VERIF_OPS_H
 #define VERIF_OPS_H
 #include "spec.h"
 
-/* ghost call log of the provider operations */
-extern unsigned      g_op_hmac_calls;
-extern const jwk_item_t *g_op_hmac_key;
-extern jwt_alg_t     g_op_hmac_alg;
-extern const char   *g_op_hmac_data;
-extern unsigned int  g_op_hmac_len;
+/* HMAC primitive */
+extern const void *g_mac_key;  extern size_t g_mac_keylen;
+extern const void *g_mac_data; extern size_t g_mac_len;
+extern int g_mac_hash;		/* 256 / 384 / 512 */
+extern const void *g_mac_out;	/* where the MAC was written */
+/* signature verification primitive */
+extern const void *g_ver_keymat;	/* EVP_PKEY * (OpenSSL) or the PEM text the key was imported from (GnuTLS) */
+extern const void *g_ver_data; extern size_t g_ver_len;
+extern int g_ver_hash;		/* 256 / 384 / 512, 0 = none (EdDSA) */
+extern int g_ver_pss;		/* RSASSA-PSS padding requested */
+extern int g_ver_family;	/* SPEC_KTY_* family the primitive was asked to use */
+extern const void *g_ver_sig; extern size_t g_ver_siglen;	/* non-EC: the signature bytes judged */
+extern const void *g_ver_raw_r, *g_ver_raw_s; extern size_t g_ver_raw_n; /* EC: DER was built from r = raw[0..n), s = raw[n..2n) */
+extern int g_ver_valid;		/* 1 iff the primitive answered "valid" */
+/* signing primitive */
+extern const void *g_sgn_keymat; extern const void *g_sgn_data; extern size_t g_sgn_len;
+extern int g_sgn_hash, g_sgn_pss;
+extern int g_sgn_done;		/* 1 iff the primitive produced a signature */
 
-extern unsigned      g_op_sign_calls;
-extern const jwk_item_t *g_op_sign_key;
-extern jwt_alg_t     g_op_sign_alg;
-extern const char   *g_op_sign_data;
-extern unsigned int  g_op_sign_len;
-
-extern unsigned      g_op_verify_calls;
-extern const jwk_item_t *g_op_verify_key;
-extern jwt_alg_t     g_op_verify_alg;
-extern const char   *g_op_verify_data;
-extern unsigned int  g_op_verify_len;
-extern const unsigned char *g_op_verify_sig;
-extern int           g_op_verify_siglen;
-extern int           g_op_verify_ret;
+#define OPS_PRIM_GHOSTS_MAC g_mac_key, g_mac_keylen, g_mac_data, g_mac_len, g_mac_hash, g_mac_out
+#define OPS_PRIM_GHOSTS_VER g_ver_keymat, g_ver_data, g_ver_len, g_ver_hash, g_ver_pss, g_ver_family, g_ver_sig, \
+	g_ver_siglen, g_ver_raw_r, g_ver_raw_s, g_ver_raw_n, g_ver_valid
+#define OPS_PRIM_GHOSTS_SGN g_sgn_keymat, g_sgn_data, g_sgn_len, g_sgn_hash, g_sgn_pss, g_sgn_done
+#define OPS_GHOST_ASSIGNS_SIGN OPS_PRIM_GHOSTS_MAC, OPS_PRIM_GHOSTS_SGN
+#define OPS_GHOST_ASSIGNS OPS_PRIM_GHOSTS_MAC, OPS_PRIM_GHOSTS_SGN, OPS_PRIM_GHOSTS_VER
 
 #define OPS_JWT_VALID(jwt) (__CPROVER_r_ok(jwt, sizeof(*jwt)) && (jwt)->key != NULL && \
 			    __CPROVER_r_ok((jwt)->key, sizeof(*(jwt)->key)))
+#define OPS_KEYMAT_OF(jwt, km) ((km) == (jwt)->key->provider_data || ((jwt)->key->pem != NULL && (km) == (jwt)->key->pem))
+/* ECDSA raw signature width for a key of `bits` bits (RFC 7518 3.4) */
+#define SPEC_EC_N(bits) (((bits) + 7) / 8)
 
 /* Each provider entry has ONE contract, parameterised only by which property's
  * gate clause is asserted at the call (so that a failing gate is attributed to
@@ -56,14 +70,15 @@ __CPROVER_requires(OPS_JWT_VALID(jwt)) \
 __CPROVER_requires(SPEC_IS_HS(jwt->alg)) \
 GATE \
 __CPROVER_requires(__CPROVER_w_ok(out, sizeof(*out)) && __CPROVER_w_ok(len, sizeof(*len))) \
-__CPROVER_assigns(*out, *len, g_op_hmac_calls, g_op_hmac_key, g_op_hmac_alg, g_op_hmac_data, g_op_hmac_len) \
+__CPROVER_assigns(*out, *len, OPS_PRIM_GHOSTS_MAC) \
 __CPROVER_ensures(__CPROVER_return_value == 0 || __CPROVER_return_value == 1) \
-__CPROVER_ensures(g_op_hmac_calls == __CPROVER_old(g_op_hmac_calls) + 1) \
-__CPROVER_ensures(g_op_hmac_key == jwt->key && g_op_hmac_alg == jwt->alg && \
-		  g_op_hmac_data == str && g_op_hmac_len == str_len) \
-__CPROVER_ensures(__CPROVER_return_value == 0 ==> \
-		  (*len == (unsigned int)SPEC_HASH_BITS(jwt->alg) / 8 && \
-		   __CPROVER_is_fresh(*out, 64))) \
+/* success: the MAC of exactly (str, str_len) under exactly the key's octets \
+ * with the hash the algorithm names, written to a fresh buffer */ \
+__CPROVER_ensures(__CPROVER_return_value == 0 ==> ( \
+	*len == (unsigned int)SPEC_HASH_BITS(jwt->alg) / 8 && __CPROVER_is_fresh(*out, 64) && \
+	g_mac_key == jwt->key->oct.key && g_mac_keylen == jwt->key->oct.len && \
+	g_mac_data == str && g_mac_len == str_len && g_mac_hash == SPEC_HASH_BITS(jwt->alg) && \
+	g_mac_out == *out)) \
 __CPROVER_ensures(__CPROVER_return_value != 0 ==> *out == NULL)
 
 DECL_OPS_SIGN_SHA_HMAC(contract_ops_sign_sha_hmac, GATE_HMAC_FULL);
@@ -79,15 +94,15 @@ __CPROVER_requires(SPEC_IS_ASYM(jwt->alg)) \
 GATE \
 __CPROVER_requires(__CPROVER_w_ok(out, sizeof(*out)) && __CPROVER_w_ok(len, sizeof(*len))) \
 __CPROVER_requires(SPEC_ERRMSG_TERMINATED(jwt)) \
-__CPROVER_assigns(*out, *len, jwt->error, SPEC_ERRMSG_FRAME(jwt), \
-		  g_op_sign_calls, g_op_sign_key, g_op_sign_alg, g_op_sign_data, g_op_sign_len) \
-__CPROVER_ensures(g_op_sign_calls == __CPROVER_old(g_op_sign_calls) + 1) \
-__CPROVER_ensures(g_op_sign_key == jwt->key && g_op_sign_alg == jwt->alg && \
-		  g_op_sign_data == str && g_op_sign_len == str_len) \
+__CPROVER_assigns(*out, *len, jwt->error, SPEC_ERRMSG_FRAME(jwt), OPS_PRIM_GHOSTS_SGN) \
 /* failure is signalled through the return value AND the per-call flag */ \
 __CPROVER_ensures(__CPROVER_return_value != 0 ==> jwt->error != 0) \
-__CPROVER_ensures(__CPROVER_return_value == 0 ==> \
-		  (*len >= 1 && *len <= 1024 && __CPROVER_is_fresh(*out, 1024))) \
+__CPROVER_ensures(__CPROVER_return_value == 0 ==> ( \
+	jwt->error == 0 && *len >= 1 && *len <= 1024 && __CPROVER_is_fresh(*out, 1024) && g_sgn_done == 1 && \
+	OPS_KEYMAT_OF(jwt, g_sgn_keymat) && g_sgn_data == str && g_sgn_len == str_len && \
+	g_sgn_hash == SPEC_HASH_BITS(jwt->alg) && g_sgn_pss == SPEC_IS_PS(jwt->alg) && \
+	/* ES*: fixed-width r||s (RFC 7518 3.4) */ \
+	(SPEC_IS_ES(jwt->alg) ==> *len == 2 * SPEC_EC_N(jwt->key->bits)))) \
 __CPROVER_ensures(SPEC_ERRMSG_TERMINATED(jwt)) \
 SPEC_ERR_MONOTONE(jwt)
 
@@ -97,6 +112,18 @@ DECL_OPS_SIGN_SHA_PEM(contract_C02_ops_sign_sha_pem, GATE_PEM_C02);
 DECL_OPS_SIGN_SHA_PEM(contract_nogate_ops_sign_sha_pem, GATE_NONE);
 
 /* ---- verify_sha_pem --------------------------------------------------- */
+/* what "the primitive judged exactly this" means for (head, head_len, sig, sig_len) */
+#define OPS_VERIFIED_EXACTLY(jwt, head, head_len, sig, sig_len) ( \
+	g_ver_valid == 1 && OPS_KEYMAT_OF(jwt, g_ver_keymat) && \
+	g_ver_data == (const void *)(head) && g_ver_len == (head_len) && \
+	g_ver_hash == SPEC_HASH_BITS((jwt)->alg) && g_ver_pss == SPEC_IS_PS((jwt)->alg) && \
+	g_ver_family == (int)SPEC_KTY_FOR((jwt)->alg) && \
+	(SPEC_IS_ES((jwt)->alg) ? \
+		/* ECDSA r||s length must equal 2 * field size; r and s are the two halves */ \
+		((size_t)(sig_len) == 2 * SPEC_EC_N((jwt)->key->bits) && g_ver_raw_n == SPEC_EC_N((jwt)->key->bits) && \
+		 g_ver_raw_r == (const void *)(sig) && g_ver_raw_s == (const void *)((sig) + SPEC_EC_N((jwt)->key->bits))) : \
+		(g_ver_sig == (const void *)(sig) && g_ver_siglen == (size_t)(sig_len))))
+
 #define DECL_OPS_VERIFY_SHA_PEM(NAME, GATE) \
 int NAME(jwt_t *jwt, const char *head, unsigned int head_len, unsigned char *sig, int sig_len) \
 __CPROVER_requires(OPS_JWT_VALID(jwt)) \
@@ -104,16 +131,13 @@ __CPROVER_requires(SPEC_IS_ASYM(jwt->alg)) \
 GATE \
 __CPROVER_requires(sig != NULL && sig_len > 0 && __CPROVER_r_ok(sig, sig_len)) \
 __CPROVER_requires(SPEC_ERRMSG_TERMINATED(jwt)) \
-__CPROVER_assigns(jwt->error, SPEC_ERRMSG_FRAME(jwt), \
-		  g_op_verify_calls, g_op_verify_key, g_op_verify_alg, g_op_verify_data, \
-		  g_op_verify_len, g_op_verify_sig, g_op_verify_siglen, g_op_verify_ret) \
-__CPROVER_ensures(g_op_verify_calls == __CPROVER_old(g_op_verify_calls) + 1) \
-__CPROVER_ensures(g_op_verify_key == jwt->key && g_op_verify_alg == jwt->alg && \
-		  g_op_verify_data == head && g_op_verify_len == head_len && \
-		  g_op_verify_sig == sig && g_op_verify_siglen == sig_len) \
-__CPROVER_ensures(g_op_verify_ret == __CPROVER_return_value) \
+__CPROVER_assigns(jwt->error, SPEC_ERRMSG_FRAME(jwt), OPS_PRIM_GHOSTS_VER) \
 /* THE clause property C12 names: a rejected signature leaves the per-call \
- * error flag set, whatever the return value is */ \
+ * error flag set, whatever the return value is -- so: flag clear afterwards \
+ * (it was clear before) implies the primitive said valid, about exactly \
+ * this key, algorithm, data and signature */ \
+__CPROVER_ensures((__CPROVER_old(jwt->error) == 0 && jwt->error == 0) ==> \
+	OPS_VERIFIED_EXACTLY(jwt, head, head_len, sig, sig_len)) \
 __CPROVER_ensures(__CPROVER_return_value != 0 ==> jwt->error != 0) \
 __CPROVER_ensures(SPEC_ERRMSG_TERMINATED(jwt)) \
 SPEC_ERR_MONOTONE(jwt)
@@ -135,10 +159,4 @@ DECL_OPS_VERIFY_SHA_PEM(contract_nogate_ops_verify_sha_pem, GATE_NONE);
 	void *volatile a2 = (void *)contract_##P##_ops_sign_sha_pem; \
 	void *volatile a3 = (void *)contract_##P##_ops_verify_sha_pem; (void)a1; (void)a2; (void)a3; } while (0)
 
-#define OPS_GHOST_ASSIGNS_SIGN g_op_hmac_calls, g_op_hmac_key, g_op_hmac_alg, g_op_hmac_data, g_op_hmac_len, \
-	g_op_sign_calls, g_op_sign_key, g_op_sign_alg, g_op_sign_data, g_op_sign_len
-#define OPS_GHOST_ASSIGNS g_op_hmac_calls, g_op_hmac_key, g_op_hmac_alg, g_op_hmac_data, g_op_hmac_len, \
-	g_op_sign_calls, g_op_sign_key, g_op_sign_alg, g_op_sign_data, g_op_sign_len, \
-	g_op_verify_calls, g_op_verify_key, g_op_verify_alg, g_op_verify_data, g_op_verify_len, \
-	g_op_verify_sig, g_op_verify_siglen, g_op_verify_ret
 #endif
